@@ -207,7 +207,7 @@ func structRT[GE any, GD any](c Case, file string, conv func(vkit.GJ) GE) ([]got
 			return nil, "NewEncoderFromFields: " + err.Error()
 		}
 		for k, r := range c.Recs {
-			if err := e.EncodeFields(r.G.Geom(), r.I, r.F, r.S); err != nil {
+			if err := e.EncodeFields(mk(r.G), r.I, r.F, r.S); err != nil {
 				e.Close()
 				return nil, fmt.Sprintf("EncodeFields record %d: %v", k, err)
 			}
@@ -339,7 +339,7 @@ func fieldsRT(c Case, file string) ([]got, string) {
 				vals = append(vals, r.S2)
 			}
 		}
-		if err := e.EncodeFields(r.G.Geom(), vals...); err != nil {
+		if err := e.EncodeFields(mk(r.G), vals...); err != nil {
 			e.Close()
 			return nil, fmt.Sprintf("EncodeFields record %d: %v", k, err)
 		}
@@ -396,9 +396,20 @@ func fieldsRT(c Case, file string) ([]got, string) {
 	return out, ""
 }
 
-func cast[T any](g vkit.GJ) T { return any(g.Geom()).(T) }
+// mk builds the geometry handed to the encoder with all its point lists cut out of one flat array (consecutive
+// sub-slices with spare capacity, see vkit.SharedGeom) and remembers the check that the array came back unchanged.
+var sharedChecks []func() string
+
+func mk(g vkit.GJ) geom.Geom {
+	gg, same := vkit.SharedGeom(g)
+	sharedChecks = append(sharedChecks, same)
+	return gg
+}
+
+func cast[T any](g vkit.GJ) T { return any(mk(g)).(T) }
 
 func run(c Case) (v vkit.Verdict) {
+	sharedChecks = nil
 	v.Class("shape_" + c.Shape)
 	v.Class("api_" + c.API + "_" + c.Layout)
 	// records whose integer does not fit the documented 10-character field are outside the domain: the encoder must refuse them
@@ -459,6 +470,11 @@ func run(c Case) (v vkit.Verdict) {
 			}
 		}
 	}
+	for k, same := range sharedChecks {
+		if m := same(); m != "" {
+			return v.Fail("encoding changed the geometry it was given (record %d; point lists are sub-slices of one array): %s", k, m)
+		}
+	}
 	if !fits {
 		v.Class("int_too_wide")
 		if c.API == "struct" && c.Layout != "D" && !strings.Contains(msg, "exceeds field length") { // layout D writes with the field-based API, which is not claimed to refuse
@@ -512,7 +528,7 @@ func TestProp(t *testing.T) {
 			"|v|<1e18, strings of 0-50 bytes (ASCII, inner blanks, quotes, UTF-8) without NUL and without leading/trailing blanks (not representable in DBF). Both APIs: " +
 			"struct-based with three record layouts (string last with tags, string first untagged with pointer records, two strings with mixed-case tags and names; a fourth layout is written with the field-based API under the Go field names and read into a struct whose tags name no column, so that the match must come from the field name; geometry " +
 			"field decoded either as the concrete type or as geom.Geom; rows decoded into a fresh record or into one reused record variable) and field-based (NewEncoderFromFields/EncodeFields/DecodeRowFields, names matched in either case). " +
-			"Oracle: same number and order of records, coordinates bit-identical with line strings as parts, rings in stored order with unclosed rings closed, boxes as 5-vertex " +
+			"The geometries handed to the encoder have their point lists cut out of one flat array (consecutive sub-slices with spare capacity), which must come back unchanged. Oracle: same number and order of records, coordinates bit-identical with line strings as parts, rings in stored order with unclosed rings closed, boxes as 5-vertex " +
 			"rectangles; ints equal, strings equal, floats within 5.1e-11; Decoder.Error nil. Non-trivial = >=2 records with string attributes of different lengths, or a multi-part geometry. Distinct by case hash.",
 		Assumptions: []string{"strings with leading/trailing blanks are excluded: DBF pads with blanks and the reader trims them", "a LineString is read back into a MultiLineString or geom.Geom field, never into a LineString field"},
 		Gen:         gen,
